@@ -323,9 +323,9 @@ func TestFp2(t *testing.T) {
 func TestGroupLaws(t *testing.T) {
 	d := newDRBG("laws")
 	for _, c := range All() {
-		iters := 12
+		iters := 6
 		if c.Kind == WeierstrassFp2 {
-			iters = 5
+			iters = 3
 		}
 		for i := 0; i < iters; i++ {
 			p, q, r := d.randPoint(c), d.randPoint(c), d.randPoint(c)
@@ -402,8 +402,8 @@ func TestScalarMulAffineEqualsProjective(t *testing.T) {
 		}
 		for pi, p := range pts {
 			ks := edge
-			if c.Kind == WeierstrassFp2 && pi > 1 {
-				ks = edge[:14]
+			if pi > 4 || (c.Kind == WeierstrassFp2 && pi > 1) {
+				ks = edge[:16] // special points: small, negative and near-N scalars only
 			}
 			for _, k := range ks {
 				a, b := c.ScalarMul(p, k), c.ScalarMulProjective(p, k)
@@ -412,9 +412,9 @@ func TestScalarMulAffineEqualsProjective(t *testing.T) {
 				}
 			}
 		}
-		iters := 25
+		iters := 10
 		if c.Kind == WeierstrassFp2 {
-			iters = 4
+			iters = 3
 		}
 		for i := 0; i < iters; i++ {
 			p, k := d.randPoint(c), d.below(new(big.Int).Lsh(bigOne, uint(1+d.intn(320))))
